@@ -33,6 +33,33 @@ def _prepare():
         raise SystemExit(f"opfython imported from {got}, expected {REPO}")
 
 
+_REACHED = set()
+
+
+def start_reach_monitor():
+    """Function-level reach of the code under test (sys.monitoring PY_START, disabled per code object after the first hit,
+    so the cost is negligible).  numba-compiled bodies do not run as Python and are not seen."""
+    mon = getattr(sys, "monitoring", None)
+    if mon is None:
+        return False
+    tool = 4
+    try:
+        mon.use_tool_id(tool, "opfmon-reach")
+    except ValueError:
+        return False
+    root = os.path.realpath(REPO) + os.sep + "opfython" + os.sep
+
+    def on_start(code, offset):
+        fn = code.co_filename
+        if fn.startswith(root):
+            _REACHED.add(fn[len(os.path.realpath(REPO)) + 1:] + "::" + code.co_qualname)
+        return mon.DISABLE
+
+    mon.register_callback(tool, mon.events.PY_START, on_start)
+    mon.set_events(tool, mon.events.PY_START)
+    return True
+
+
 def load_module(pid):
     return importlib.import_module("opfmon.props." + pid.lower())
 
@@ -88,6 +115,7 @@ def main(argv):
     _prepare()
     from .base import brief, case_hash, jsonable
 
+    start_reach_monitor()
     mod = load_module(pid)
     t0 = time.time()
     rep = {
@@ -150,6 +178,7 @@ def main(argv):
                 continue
             absorb(case, res, {"seed": seed, "idx": idx, "tier": tier})
 
+    rep["reached"] = sorted(_REACHED)
     rep["obs"] = dict(obs)
     rep["cells"] = sorted(cells)
     rep["nontrivial_hashes"] = sorted(hashes)
